@@ -238,9 +238,12 @@ func runMuxRPC(seed int64, nOps, poolSize int, o muxOpts) (viol []rec.Violation,
 	}
 	// quiescent-point oracle: registered set == endpoint set == live peer count
 	settle := func(what string) bool {
-		want := len(live())
 		deadline := time.Now().Add(8 * time.Second)
 		for {
+			// (the live set is read on every poll: the "replace" operation kills the old peer from another
+			// goroutine, which may not have run yet when the polling starts - a count taken once up front
+			// produced a false "registered-set-wrong" in the thorough tier)
+			want := len(live())
 			reg := mgr.GetMuxConnections()
 			var regKeys []string
 			for k := range reg {
